@@ -746,6 +746,28 @@ class Analysis:
             if cur['op'] not in one:
                 return False
 
+    def check_consumers_ran(self, prop='C02'):
+        """A consumer written as a native coroutine only processes its element when somebody awaits (or
+        schedules) the coroutine object it returned: a node that drops the awaitables handed back by its
+        consumers silently loses the element.  Judged when the run has gone quiet, for consumers in a pipeline
+        that has a loop (a loop-less pipeline cannot run coroutines at all)."""
+        V = []
+        if not self.quiescent:
+            return V
+        qseq = max(e[0] for e in self.ev if e[2] == 'quiescent')
+        for a in getattr(self.res.ctx, 'activities', []):
+            if a.kind != 'sink' or a.ran or a.done or a.start_seq > qseq:
+                continue        # (a ticking node may call a consumer again right before the run is cut)
+            n = self.spec.get(a.node)
+            if n is None or n.get('kind') != 'native' or not self.emits_wait(a.node):
+                continue
+            V.append(Violation(prop, '%s.consumer_never_ran' % prop, a.start_seq,
+                               'sink %d (native coroutine) was called with an element (its call #%d) but the coroutine it returned was '
+                               'never awaited or scheduled: the element was never processed' % (a.node, a.call),
+                               node_op='sink', kind='native'))
+            return V
+        return V
+
     def check_handoff(self):
         """Nodes that forward one element at a time (the worker of map_async, the drain loops of buffer / delay /
         latest / timed_window) wait for their consumers before they take the next element: that wait is what
